@@ -14,7 +14,7 @@ RULE = (
     "files with d declared curves (distinct unit/value/descr each), c data columns and r rows whose cell (i, j) is "
     "100(i+1)+(j+1) (optionally negated outside the index); unwrapped for every (d, c, r); WRAP YES for c == d with "
     "every composition of the c tokens of a depth step into physical lines; rows around the 20-line sniffing window "
-    "with an optional blank/comment at the window edge; a family whose mnemonics are integers equal to another curve's position; both engines; a case is non-trivial when d != c, or the file "
+    "with an optional blank/comment at the window edge; ~A followed by ~Parameter for d <, =, > c; a remark marker '%' (ignore_data_comments) with remark lines in the data; a family whose mnemonics are integers equal to another curve's position; both engines; a case is non-trivial when d != c, or the file "
     "is wrapped, or r >= 19"
 )
 ASSUMPTIONS = [
@@ -69,6 +69,18 @@ def points(tier):
                 for r in (2, 3):
                     for k in range(1, c):
                         pts.append({"kind": "comma-empty", "d": c, "c": c, "r": r, "engine": eng, "sign": sign, "noise": None, "empty": k})
+            # ~A followed by another section (the section-end arithmetic of the sniffer and of both engines), d <, =, > c
+            for d in (1, 2, 3, 4):
+                for c in (1, 2, 3, 4):
+                    for r in (1, 2, 3, 19, 20, 21, 22):
+                        if r > 3 and (d > 3 or c > 3):
+                            continue
+                        pts.append({"kind": "unwrapped", "d": d, "c": c, "r": r, "engine": eng, "sign": sign, "noise": None, "follows": True})
+            # a remark marker other than '#' (read option ignore_data_comments), remark lines inside the data
+            for d in (1, 2, 3, 4, 6, 8):
+                for r in (1, 2, 3, 5):
+                    for noise in (["pcomment", 1], ["pcomment", r]):
+                        pts.append({"kind": "unwrapped", "d": d, "c": d, "r": r, "engine": eng, "sign": sign, "noise": noise, "marker": "%"})
             # mnemonics that are themselves integers equal to another curve's position (a lookup by
             # position must never be answered by name)
             for d in (2, 3, 4, 5):
@@ -123,8 +135,10 @@ def build_text(pt):
             lines.append("  ".join(toks))
         n_line += 1
         if pt["noise"] and pt["noise"][1] == n_line:
-            lines.append({"blank": "", "comment": "# comment", "icomment": "   # indented comment", "tcomment": "\t# c"}[pt["noise"][0]])
+            lines.append({"blank": "", "comment": "# comment", "icomment": "   # indented comment", "tcomment": "\t# c", "pcomment": "% remark line"}[pt["noise"][0]])
     secs.append(lines)
+    if pt.get("follows"):
+        secs.append(["~Parameter", lasgen.item_line("P1", "U", "3.5", "a parameter"), lasgen.item_line("P2", "", "x y", "another")])
     return lasgen.render(secs), curves
 
 
@@ -139,7 +153,8 @@ def check_point(pt):
                 "repro": "import lasio; las=lasio.read(%r, engine=%r); print(las.keys(), las.data)" % (text, pt["engine"])}
 
     try:
-        las = lasio.read(text, engine=pt["engine"])
+        rkw = {"ignore_data_comments": pt["marker"]} if pt.get("marker") else {}
+        las = lasio.read(text, engine=pt["engine"], **rkw)
     except Exception as e:
         # the statement defines the outcome for these inputs, so they must read
         return [V("defined-case-raises", "a successful read with %d curves x %d rows" % (max(c, d), r),
@@ -212,6 +227,10 @@ def classify(pt, clause):
         feats.append("neg")
     if pt.get("names") == "numeric":
         feats.append("numeric-names")
+    if pt.get("follows"):
+        feats.append("inner-A")
+    if pt.get("marker"):
+        feats.append("marker")
     return "+".join(feats)
 
 
